@@ -5,8 +5,8 @@ use educe::Educe;
 use core::cmp::Ordering;
 #[derive(Educe)]
 #[educe(PartialEq)]
-pub enum T { A { other: A<0>, #[educe(PartialEq(method = "m_eq"))] f: A<0>, #[educe(PartialEq(ignore = true))] b: A<2>, #[educe(PartialEq(ignore))] x: A<0> }, B { r#type: A<0>, arg: A<1>, builder: A<2> }, Unit { size: A<0>, _0: A<1> } }
-pub fn values() -> Vec<T> { vec![T::A { other: A(1), f: A(7), b: A(7), x: A(7) }, T::A { other: A(1), f: A(0), b: A(1), x: A(1) }, T::A { other: A(0), f: A(0), b: A(0), x: A(1) }, T::A { other: A(0), f: A(0), b: A(7), x: A(0) }, T::A { other: A(7), f: A(0), b: A(1), x: A(0) }, T::A { other: A(1), f: A(0), b: A(1), x: A(7) }, T::A { other: A(1), f: A(0), b: A(0), x: A(1) }, T::A { other: A(0), f: A(7), b: A(0), x: A(0) }, T::A { other: A(0), f: A(1), b: A(7), x: A(1) }, T::A { other: A(1), f: A(1), b: A(0), x: A(1) }, T::A { other: A(1), f: A(7), b: A(1), x: A(0) }, T::A { other: A(0), f: A(7), b: A(7), x: A(1) }, T::A { other: A(7), f: A(7), b: A(7), x: A(0) }, T::A { other: A(1), f: A(1), b: A(1), x: A(7) }, T::A { other: A(1), f: A(1), b: A(0), x: A(7) }, T::A { other: A(0), f: A(1), b: A(0), x: A(1) }, T::B { r#type: A(0), arg: A(7), builder: A(1) }, T::B { r#type: A(7), arg: A(7), builder: A(7) }, T::B { r#type: A(7), arg: A(0), builder: A(0) }, T::B { r#type: A(1), arg: A(0), builder: A(0) }, T::B { r#type: A(0), arg: A(7), builder: A(7) }, T::B { r#type: A(0), arg: A(1), builder: A(1) }, T::B { r#type: A(7), arg: A(1), builder: A(1) }, T::B { r#type: A(0), arg: A(1), builder: A(0) }, T::B { r#type: A(1), arg: A(7), builder: A(7) }, T::B { r#type: A(1), arg: A(1), builder: A(0) }, T::B { r#type: A(0), arg: A(1), builder: A(7) }, T::B { r#type: A(0), arg: A(7), builder: A(0) }, T::B { r#type: A(7), arg: A(7), builder: A(0) }, T::B { r#type: A(1), arg: A(1), builder: A(1) }, T::B { r#type: A(0), arg: A(0), builder: A(1) }, T::B { r#type: A(1), arg: A(7), builder: A(1) }, T::Unit { size: A(0), _0: A(0) }, T::Unit { size: A(0), _0: A(1) }, T::Unit { size: A(0), _0: A(7) }, T::Unit { size: A(1), _0: A(0) }, T::Unit { size: A(1), _0: A(1) }, T::Unit { size: A(1), _0: A(7) }, T::Unit { size: A(7), _0: A(0) }, T::Unit { size: A(7), _0: A(1) }, T::Unit { size: A(7), _0: A(7) }] }
-pub fn show(x: &T) -> String { #[allow(unused_variables)] match x { T::A { other: p0, f: p1, b: p2, x: p3 } => format!("A({},{},{},{})", sv(p0), sv(p1), sv(p2), sv(p3)), T::B { r#type: p0, arg: p1, builder: p2 } => format!("B({},{},{})", sv(p0), sv(p1), sv(p2)), T::Unit { size: p0, _0: p1 } => format!("Unit({},{})", sv(p0), sv(p1)) } }
-pub fn o_eq(a: &T, b: &T) -> bool { match (a, b) { (T::A { other: a0, f: a1, b: a2, x: a3 }, T::A { other: b0, f: b1, b: b2, x: b3 }) => (a0 == b0) && m_eq(a1, b1), (T::B { r#type: a0, arg: a1, builder: a2 }, T::B { r#type: b0, arg: b1, builder: b2 }) => (a0 == b0) && (a1 == b1) && (a2 == b2), (T::Unit { size: a0, _0: a1 }, T::Unit { size: b0, _0: b1 }) => (a0 == b0) && (a1 == b1), _ => false } }
+pub enum T { A { data: A<0> }, V1(#[educe(PartialEq(ignore(true)))] A<0>), None(A<0>, #[educe(PartialEq(ignore = false))] A<1>), Zed }
+pub fn values() -> Vec<T> { vec![T::A { data: A(0) }, T::A { data: A(1) }, T::A { data: A(7) }, T::V1(A(0)), T::V1(A(1)), T::V1(A(7)), T::None(A(0), A(0)), T::None(A(0), A(1)), T::None(A(0), A(7)), T::None(A(1), A(0)), T::None(A(1), A(1)), T::None(A(1), A(7)), T::None(A(7), A(0)), T::None(A(7), A(1)), T::None(A(7), A(7)), T::Zed] }
+pub fn show(x: &T) -> String { #[allow(unused_variables)] match x { T::A { data: p0 } => format!("A({})", sv(p0)), T::V1(p0) => format!("V1({})", sv(p0)), T::None(p0, p1) => format!("None({},{})", sv(p0), sv(p1)), T::Zed => format!("Zed()") } }
+pub fn o_eq(a: &T, b: &T) -> bool { match (a, b) { (T::A { data: a0 }, T::A { data: b0 }) => (a0 == b0), (T::V1(a0), T::V1(b0)) => true, (T::None(a0, a1), T::None(b0, b1)) => (a0 == b0) && (a1 == b1), (T::Zed, T::Zed) => true, _ => false } }
 pub fn run(out: &mut Out) { let vs = values(); for a in &vs { for b in &vs { let e = o_eq(a, b); out.check((a == b) == e, "eq_22", "eq", || format!("{} == {} expected {}", show(a), show(b), e)); out.check((a != b) == !e, "eq_22", "ne", || format!("{} != {} expected {}", show(a), show(b), !e)); } } }
